@@ -239,7 +239,8 @@ def run_shard(spec, rec):
         case, make = pick(rnd, i)
         case = dict(case, history=i)
         rec.count("configs:" + case["kind"])
-        run_history(rec, make, rnd, spec["cycles"], case, prop_tag=case["kind"])
+        # in a quarter of the histories every way has a second, competing caller: each way counts one call per cycle
+        run_history(rec, make, rnd, spec["cycles"], case, prop_tag=case["kind"], rivals=random.Random(f"rivals:C31:{spec['seed']}:{i}").random() < 0.25)
         if len(rec.samples) < 2:
             rec.sample(case)
     if spec["first"] % 20 == 0:
